@@ -36,6 +36,9 @@ type script struct {
 	First  lnmodel.StatusAnswer // consumed by melt's extra check (only when Pay is failed / error); StTruth = unused
 	Events []event
 	Tail   string // "", "swap_melt", "melt_swap"
+	// ViaCLN: the mint reaches the Lightning model through the repository's Core Lightning adapter (harness/clnfacade)
+	ViaCLN bool `json:"via_cln,omitempty"`
+	ViaLND bool `json:"via_lnd,omitempty"`
 }
 
 func (s script) String() string {
@@ -136,6 +139,8 @@ func afterLookup(a lnmodel.StatusAnswer, inMelt bool) []st {
 }
 
 type runner struct {
+	viaLND bool
+	viaCLN bool
 	t      *testing.T
 	w      *world.World
 	used   int
@@ -148,7 +153,7 @@ func (r *runner) world() *world.World {
 			r.w.Close()
 		}
 		r.seedNo++
-		r.w = world.New(r.t, world.Config{CaseSeed: 5000 + r.seedNo, FeeMode: lnmodel.FeePercent, FeePpk: 100})
+		r.w = world.New(r.t, world.Config{CaseSeed: 5000 + r.seedNo, FeeMode: lnmodel.FeePercent, FeePpk: 100, ViaCLN: r.viaCLN, ViaLND: r.viaLND})
 		r.used = 0
 	}
 	r.used++
@@ -432,6 +437,64 @@ func TestScripts(t *testing.T) {
 	}
 }
 
+// TestScriptsViaCLN: the same enumeration (one length shorter) with the repository's Core Lightning adapter between
+// the mint and the Lightning model: pay / listpays answers cross as the JSON a node would send, transport errors are
+// dropped connections. The reference automaton is the same - the adapter must not change what the mint concludes.
+func scriptsVia(t *testing.T, adapter string) {
+	maxLen := 3
+	if os.Getenv("VERIF_TIER") == "thorough" {
+		maxLen = 5
+	}
+	all := enumerate(maxLen)
+	shard, _ := strconv.Atoi(os.Getenv("VERIF_SHARD"))
+	n, _ := strconv.Atoi(os.Getenv("VERIF_NSHARDS"))
+	if n == 0 {
+		n = 1
+	}
+	r := &runner{t: t, viaCLN: adapter == "cln", viaLND: adapter == "lnd"}
+	defer func() {
+		if r.w != nil {
+			r.w.Close()
+		}
+	}()
+	bad := 0
+	for i, sc := range all {
+		if i%n != shard {
+			continue
+		}
+		sc.ViaCLN, sc.ViaLND = adapter == "cln", adapter == "lnd"
+		viol, lookups := r.run(sc)
+		rec.Eval()
+		if lookups >= 1 {
+			rec.NonTrivial("via_" + adapter + ":" + sc.String())
+		}
+		rec.Class("via_" + adapter + "_adapter_pay=" + sc.Pay.String())
+		for _, v := range viol {
+			if rec.IsKnown(v.sig) {
+				continue
+			}
+			bad++
+			v.sig += "|via_" + adapter + "_adapter"
+			rec.Violate(v.sig, v.detail, sc)
+			if bad <= 5 {
+				t.Errorf("VIOLATION %s: %s", v.sig, v.detail)
+			}
+		}
+	}
+	if shard == 0 {
+		rec.Exhaustive(fmt.Sprintf("lightning answer scripts of length <= %d through the %s adapter", maxLen, adapter), len(all))
+	}
+	if bad > 0 {
+		t.Fatalf("%d violations", bad)
+	}
+}
+
+func TestScriptsViaCLN(t *testing.T) { scriptsVia(t, "cln") }
+
+// TestScriptsViaLND: likewise through the repository's LND adapter (payment outcomes as SendResponse / Payment messages
+// and grpc status errors, a payment that stays in flight as a context deadline).
+func TestScriptsViaLND(t *testing.T) { scriptsVia(t, "lnd") }
+
 // TestReplay re-runs one saved script (VERIF_REPLAY=<case json>).
 func TestReplay(t *testing.T) {
 	path := os.Getenv("VERIF_REPLAY")
@@ -448,7 +511,7 @@ func TestReplay(t *testing.T) {
 	if err := json.Unmarshal(raw, &doc); err != nil {
 		t.Fatal(err)
 	}
-	r := &runner{t: t}
+	r := &runner{t: t, viaCLN: doc.Replay.ViaCLN, viaLND: doc.Replay.ViaLND}
 	viol, _ := r.run(doc.Replay)
 	if r.w != nil {
 		r.w.Close()
